@@ -220,6 +220,7 @@ type asyncPostProcess struct {
 	jobs []asyncPostProcessJob
 
 	concurrency int
+	verifPersistState
 }
 
 func newAsyncPostProcess(pp backend.PostProcessor) *asyncPostProcess {
@@ -241,32 +242,47 @@ func (p *asyncPostProcess) OnFinished(f func(path string, content []byte) error)
 	errs := make(chan error, len(p.jobs))
 	processing := make(chan struct{}, p.concurrency)
 	for _, j := range p.jobs {
+		p.verifEv("select", j.Path)
 		select {
 		case processing <- struct{}{}: // processing++, block if full
+			p.verifEv("acquired", j.Path)
 		case err := <-errs:
+			p.verifEv("errRecv", j.Path)
 			wg.Wait()
+			p.verifEv("errWaited", j.Path)
 			return err
 		}
 		wg.Add(1)
+		p.verifEv("spawn", j.Path)
 		go func(path string, content []byte) {
+			defer p.verifEv("exit", path)
 			defer func() { wg.Done(); <-processing }() // processing--
+			defer p.verifEv("done", path)
+			p.verifEv("start", path)
 			var err error
 			if p.pp != nil {
 				content, err = p.pp.PostProcess(path, content)
+				p.verifEv("ppDone", path)
 			}
 			if err == nil {
 				err = f(path, content)
+				p.verifEv("writeDone", path)
 			}
 			if err != nil {
 				errs <- err
+				p.verifEv("errSent", path)
 			}
 		}(j.Path, unsafex.StringToBinary(j.Content))
 	}
+	p.verifEv("wait", "")
 	wg.Wait()
+	p.verifEv("waited", "")
 	select {
 	case err := <-errs:
+		p.verifEv("finalErr", "")
 		return err
 	default:
+		p.verifEv("finalNone", "")
 		return nil
 	}
 }
